@@ -7,12 +7,12 @@ CONSTANTS Forms
 Pairs(f) == {<<k, f[k]>> : k \in DOMAIN f}
 \* the state is only an identity for the harness (it rebuilds the graph); what it compares is Obs
 St == ToString(core)
-Obs == [out |-> out, forgotten |-> {p \in DOMAIN rR : Get(evN, p) > 0}, subs |-> subs, pending |-> PendIds, done |-> done, failed |-> failed,
+Obs == [out |-> out, alive |-> alive, forgotten |-> {p \in DOMAIN rR : Get(evN, p) > 0}, subs |-> subs, pending |-> PendIds \cup abandoned, done |-> done, failed |-> failed,
         ackedR |-> Pairs(aR), delivR |-> Pairs(dR), delivU |-> Pairs(dU), ids |-> ids]
 \* a data message (matches the extra subscribers) carries its acks appended; a PacketAck message does not match
 FormsFor(acks, match) == IF match THEN {"app"} ELSE
                          IF Cardinality(acks) < 2 THEN Forms \ {"app", "mix"} ELSE Forms \ {"app"}
-MInit == Init /\ PrintT(ToJson([init |-> St, obs |-> Obs]))
+MInit == MCInit /\ PrintT(ToJson([init |-> St, obs |-> Obs]))
 P(act) == PrintT(ToJson([src |-> St, act |-> act, dst |-> St', obs |-> Obs']))
 MNext == \/ \E p \in RelPids, acks \in AckSets : RecvRel(p, acks) /\ \A f \in FormsFor(acks, TRUE) :
               P([n |-> "Recv", p |-> p, rel |-> TRUE, acks |-> acks, form |-> f])
@@ -20,6 +20,8 @@ MNext == \/ \E p \in RelPids, acks \in AckSets : RecvRel(p, acks) /\ \A f \in Fo
               P([n |-> "Recv", p |-> p, rel |-> FALSE, acks |-> acks, form |-> f])
          \/ \E l \in Levels, k \in SubKinds : DoSubscribe(l, k) /\ P([n |-> "Subscribe", l |-> l, k |-> k])
          \/ Stray /\ P([n |-> "Stray", acks |-> PendIds])
+         \/ Lifecycle /\ GoAlive /\ P([n |-> "GoAlive"])
+         \/ Lifecycle /\ Disconnect /\ P([n |-> "Disconnect"])
          \/ DoSendRel /\ P([n |-> "SendRel"])
          \/ DoSendUnrel /\ P([n |-> "SendUnrel"])
          \/ \E d \in Ticks : Tick(d) /\ P([n |-> "Tick", d |-> d])
